@@ -460,6 +460,7 @@ printf("dgssvx: Fact=%4d, Trans=%4d, equed=%c\n",
             }
 	    if ( *info != 0 ) ; /* an earlier argument is already at fault */
 	    else if ( X->ncol < 0 ) *info = -14;
+	    else if ( B->ncol != 0 && B->ncol != X->ncol ) *info = -14;
             else if ( X->ncol > 0 ) { /* no checking if X->ncol=0 */
                  if ( Xstore->lda < SUPERLU_MAX(0, A->nrow) ||
 		      (B->ncol != 0 && B->ncol != X->ncol) ||
